@@ -937,6 +937,7 @@ func (fc *FnCtx) anchorAssertsAt(pos token.Pos) {
 			}
 		}
 		fc.anchorsDone[key] = true
+		fc.anchorsDone[fmt.Sprintf("assertok:%d", i)] = true
 		if a.Apply {
 			fc.applyLemma(a.C.E.(*ECall), env)
 			continue
